@@ -21,15 +21,15 @@ func allSpecs() map[string]*PropSpec {
 	}
 	add(&PropSpec{
 		ID:          "C15",
-		Explanation: "M-ORDER: every range over a Go map and every sync.Map.Range callback in non-test module code is classified by the effects of its body (interprocedural, parametric summaries); a loop whose iteration order can reach a response, notification or persistent index without passing a total sort is reported. Decides the map-order clause of determinism for all 2^n iteration orders at once.",
+		Explanation: "History independence (responses are a function of the current contents, not of how the server got there): the workspace freshness rules C12-CLEAR / C12-REFRESH / C12-PAIR / T1 / T2, the loader cache rules G-CACHEPATH / G-CACHEINDEP / G-STATE / G-INVALIDATE and C-CACHE (per-document caches dropped on change). M-ORDER: every range over a Go map and every sync.Map.Range callback in non-test module code is classified by the effects of its body (interprocedural, parametric summaries); a loop whose iteration order can reach a response, notification or persistent index without passing a total sort is reported. Decides the map-order clause of determinism for all 2^n iteration orders at once.",
 		NotDecided:  "non-determinism from sources other than Go map order (time.Now in date completion by design; file-system order is sorted by the loader); ties in unstable sorts over already-deterministic input.",
-		Rules:       []func(*Ctx){ruleMapOrder},
+		Rules:       []func(*Ctx){ruleMapOrder, ruleDeterminismState},
 	})
 	add(&PropSpec{
 		ID:          "C02",
 		Explanation: "D-EXACT: every operation on decimal.Decimal in parser/analyzer/workspace/server (the path lexer value -> parseAmount -> CheckBalance/sumByCommodity -> message) is from the exact set (Add, Sub, Mul, Neg, Abs, IsZero, IsNegative, Cmp, String, NewFromString ...); T3: both analysis entry points call the balance check for every transaction and emit a diagnostic iff !Balanced; T4: the codes the analyzer writes are exactly the codes the server's filter switches on and UNBALANCED/MULTIPLE_INFERRED are gated by exactly the unbalanced-transactions setting; M-ORDER on the message builder.",
 		NotDecided:  "that separator normalisation, sign placement and cost conversion compute the intended number (value semantics of normalizeNumber, parseAmount, sumByCommodity); hledger's own balancing rule.",
-		Rules:       []func(*Ctx){ruleDecimalExact("internal/parser", "internal/analyzer", "internal/workspace", "internal/server"), ruleT3, ruleT4, ruleMapOrder},
+		Rules:       []func(*Ctx){ruleDecimalExact("internal/parser", "internal/analyzer", "internal/workspace", "internal/server"), ruleNumberSign, ruleT3, ruleT4, ruleMapOrder},
 	})
 	add(&PropSpec{
 		ID:          "C12",
@@ -79,7 +79,7 @@ func allSpecs() map[string]*PropSpec {
 		ID:          "C20",
 		Explanation: "D-EXACT: hover sums use exact decimal operations only (Add; String rendering). T10: the two account-balance calculators aggregate postings identically (skip amount-less postings, accumulate Quantity with Add). C20-TREE: in the hover handler balances are summed over the resolved tree's AllTransactions() and the very same list feeds the posting/transaction counts. C20-ONCE: AllTransactions is 'primary once + one pass over FileOrder' and every growth site of FileOrder is de-duplicated. Loader rules (G-ONCE, G-CACHEPATH, G-CACHEINDEP) and workspace freshness rules (C12-*) because the set of aggregated files comes from them. M-ORDER on the hover builders.",
 		NotDecided:  "the sums and counts as values; which postings 'count' (value semantics); number-notation parsing (normalizeNumber).",
-		Rules:       append([]func(*Ctx){ruleDecimalExact("internal/analyzer", "internal/server", "internal/parser"), ruleC20, ruleLoaderCache, ruleLoaderCycle, ruleMapOrder}, wsFresh...),
+		Rules:       append([]func(*Ctx){ruleDecimalExact("internal/analyzer", "internal/server", "internal/parser"), ruleNumberSign, ruleC20, ruleLoaderCache, ruleLoaderCycle, ruleMapOrder}, wsFresh...),
 	})
 	add(&PropSpec{
 		ID:          "C09",
@@ -91,7 +91,7 @@ func allSpecs() map[string]*PropSpec {
 		ID:          "C16",
 		Explanation: "I-LIMIT: the list returned by completion is the ranked list or its zero-based prefix ranked[:MaxResults] taken under len(ranked) > MaxResults, and the limit is read only by the normaliser, the settings parser and that truncation (so a smaller maximum yields a prefix of a larger one and at most the maximum is returned). I-ORDER: generate -> filter -> rank -> truncate by data flow. I-FLAG: the filter's mode argument is the unmodified fuzzyMatching setting from the per-request settings snapshot. I-RANK: the ranking comparator is descending in score and in use count. I-RANGE: the replace range ends at the request position, its start is a byte offset clamped to the cursor and converted to UTF-16. M-ORDER (item order), workspace freshness (names offered exist in the workspace) and T6 for the two completion settings.",
 		NotDecided:  "soundness/completeness of the offered set against the symbol table, the fuzzy and prefix predicates, the context classifier (value semantics).",
-		Rules:       append([]func(*Ctx){rulePipeline, ruleMapOrder}, wsFresh...),
+		Rules:       append([]func(*Ctx){rulePipeline, ruleMapOrder, ruleUnits("module", nil)}, wsFresh...),
 	})
 	add(&PropSpec{
 		ID:          "C08",
@@ -140,9 +140,21 @@ func allSpecs() map[string]*PropSpec {
 		ID:          "C03",
 		Explanation: "Only the narrow structural part of this property is decided. T7: every directive keyword the parser has a case for is in the lexer's keyword set, and every directive the property names (account, commodity, include, P, Y, D) has a parser case. T8: every token kind the lexer can emit is tested for by some parser branch. D-EXACT at the point quantities are built (decimal.NewFromString only). L-PROGRESS/P-PROGRESS/L-NEWLINE: tokens cover the input left to right, never span a line break and every loop of lexer and parser consumes input (no supported journal can hang or shift line numbers).",
 		NotDecided:  "MOST OF THE PROPERTY: that the context-free, first-character lexer heuristics classify every spelling of every supported construct correctly (upper-case or digit-leading descriptions, colons in descriptions, CRLF line ends, spaces before the first colon of a virtual account), number-notation normalisation, and the equality of the extracted structure with the written one. These are value semantics of heuristics; no structural fact in reach separates a right heuristic from a wrong one (two known counter-examples on today's tree - CRLF input and an all-caps description yield syntax errors - are invisible to every rule here).",
-		Rules:       []func(*Ctx){ruleT7T8, ruleDecimalExact("internal/parser"), ruleLexer, ruleParser},
+		Rules:       []func(*Ctx){ruleT7T8, ruleDecimalExact("internal/parser"), ruleNumberSign, ruleLexer, ruleParser},
 	})
 	return m
+}
+
+// ruleDeterminismState: rules shared with C12/C11/C01 that make responses independent of the edit history.
+func ruleDeterminismState(c *Ctx) {
+	ruleT1T2(c)
+	ruleC12Clear(c)
+	ruleC12Refresh(c)
+	ruleC12Pair(c)
+	ruleLoaderCache(c)
+	if h, _, store, docField := changeHandler(c.P); h != nil {
+		ruleCacheFresh(c, h, store, docField)
+	}
 }
 
 func runThorough(c *Ctx, spec *PropSpec, verif, repo string, extra map[string]any) {}
